@@ -8,7 +8,7 @@ unbalanced parentheses."""
 import math
 import re
 
-from .. import core, forms, enum, probes
+from .. import core, enum, forms, probes, stretch
 
 ID = 'C19'
 RULE = ('evaluate: every token sequence up to the bound over 1 2 .5 7 + - * / \\ ( ) space (exhaustive, partitioned), random '
@@ -351,6 +351,14 @@ def run_shard(desc, ctx):
                 for pos in list(range(len(s) + 1)) + [None]:
                     for opt in OPTS:
                         check_extract(s, pos, opt, 'extract:enum', ctx, api)
+            # near misses (vmon/stretch.py): long runs of operators, blanks and digits before the caret (a `- - - -` cut line, a row of `*`)
+            import random as _random
+            rr = _random.Random(desc['part'] * 7919 + 1)
+            for _ in range(30):
+                run = stretch.near_miss(rr, units=['- ', '* ', '+ ', '-', '1 ', '1+', ') ', '( ', '1 - ', '. ', '  '], ends=['x', '', '=', '1', ')', 'a b', ', 2'])
+                for t in (run, 'foo ' + run + ' 2+2', run + '(3 + 1)', 'x ' + run):
+                    for pos in (len(t), max(len(t) - 1, 0), None):
+                        check_extract(t, pos, OPTS[rr.randrange(len(OPTS))], 'extract:near-miss-run', ctx, api)
         elif desc['kind'] == 'tokens':
             # near-valid inputs: sequences of whole tokens (the character enumeration stops far below `(1)()(2)`)
             for s in enum.strings(ETOKS, desc['maxlen'], desc['part'], desc['nparts'], minlen=1):
